@@ -459,7 +459,7 @@ func (s *Session) onPlay(resp *Response, req *Request) (err error) {
 		err = s.asMulticastConsumer(stream, resp)
 	}
 
-	if err == nil {
+	if err == nil && resp.StatusCode == StatusOK { // 被拒绝的 PLAY（如不支持组播、UDP 准备失败）不能进入播放状态
 		s.status = statusPlaying
 	}
 	return
